@@ -437,7 +437,7 @@ C04_TYPEARGS_PART = (G, "gosym_part", dict(name="c04_determines_type_arguments",
                                     "symbol added, alias target made optional / a vector) changes the schema text; the same model gives the same text"))
 
 # ---- emitted C++ schema tables (protocols.h + protocols.cc read back as one translation unit) --
-C04_CPP_SCHEMAS_PART = (G, "gosym_part", dict(name="c04_cpp_schema_tables", entry="internal/zzverif.C04CppSchemas", args_quick=(2, 6, 3), args_thorough=(3, 6, 4),
+C04_CPP_SCHEMAS_PART = (G, "gosym_part", dict(name="c04_cpp_schema_tables", entry="internal/zzverif.C04CppSchemas", args_quick=(2, 6, 4), args_thorough=(3, 6, 6),
                                extra_thorough=("-max-paths", "400000"),
                                required_sites=("documented-compatible-changes-accepted", "emitted-unit-understood", "static-initialised-before-use", "version-enum-lists-each-label-once",
                                                "schema-member-carries-current-schema", "header-schema-is-that-versions-schema", "schema-of-listed-version-accepted",
@@ -457,6 +457,9 @@ C04_CPP_SCHEMAS_PART = (G, "gosym_part", dict(name="c04_cpp_schema_tables", entr
                                     "evaluated with C++ static-initialisation-order semantics: for EVERY enumerator L the schema the writer puts in the header for Version::L is the schema text of "
                                     "version L's own model (dsl.GetProtocolSchemaString of that version's independently validated model), VersionFromSchema of that text selects a version with "
                                     "that same schema text, no initialiser reads an object defined later, and texts that are no version's schema (incl. the empty one) are refused"))
+
+# the same obligations for labels that need escaping as C++ enumerators (`Current`, keywords), with unchanged versions only
+C04_CPP_LABELS_PART = (G, "gosym_part", dict(C04_CPP_SCHEMAS_PART[2], name="c04_cpp_version_labels", args_quick=(2, 1, 6), args_thorough=(3, 2, 6)))
 
 # ---- emitted C++ binary protocol methods read back and evaluated (h-cppgen) -------------------
 CPP_PROTO_ASSUME = ["the emitted method bodies are read back into statements (if / switch (version_) with C++ fall-through / element-wise for / simple) by "
@@ -635,6 +638,7 @@ C20V_DESC = ("package Main with imports ../imp (namespace Imp) and two predecess
              "unknown type / int, symbolic 64-bit tag in the record comment); after quiescence the output equals the one-shot output for the final contents, the watcher is alive, cwd is the package directory")
 PARTS = {
     "C08": [
+        C04_CPP_LABELS_PART,   # version labels become distinct, keyword-free C++ enumerators
         C08_EXPR_PART,   # emitted C++ / Python / MATLAB computed-field expressions are complete, side-effect-free expressions of their language
         C13_IMPORTED_GENERICS,   # definitions come out dependencies-first (also through type arguments of imported generics): generated Python modules import, C++ declares before use
         (G, "gosym_part", dict(name="c08_python_package", entry="internal/zzverif.C08PythonPackage",
@@ -687,7 +691,8 @@ PARTS = {
                                desc="same for the write direction (writing a value of the current type to a previous version)")),
         C05_SWITCH_WRITER,
         C05_SWITCH_READER,
-        C04_CPP_SCHEMAS_PART,  # a writer targeting a previous version is accepted by that version's reader; a stream of a previous version selects that version's conversions
+        C04_CPP_SCHEMAS_PART,
+        C04_CPP_LABELS_PART,  # a writer targeting a previous version is accepted by that version's reader; a stream of a previous version selects that version's conversions
         C05_NESTED_READ,
         C05_BULK_BYPASS,      # the bulk (memcpy) path of the runtime must not replace a previous version's compatibility serializer
         C05_STRUCT_PLANS,     # every version's body reads / writes that version's structural wire plan
@@ -835,7 +840,8 @@ PARTS = {
         C04_EMBED_PART,
         C04_DETERMINES_PART,   # a reader can only refuse a foreign stream if wire-different models have different schema texts
         C04_TYPEARGS_PART,     # ... also when the difference sits in a definition reached only through a type argument
-        C04_CPP_SCHEMAS_PART,  # the generated C++ reader maps exactly the schema texts of the listed versions to a version and refuses every other text (incl. the empty one)
+        C04_CPP_SCHEMAS_PART,
+        C04_CPP_LABELS_PART,  # the generated C++ reader maps exactly the schema texts of the listed versions to a version and refuses every other text (incl. the empty one)
         (CC, "c15_cc_header", dict()),
         (PY, "c15_py_header", dict()),
     ],
@@ -848,7 +854,8 @@ PARTS = {
                                     "a computed field, unrelated definitions/protocol, reversed definition order, other file and symbolic line offset: schema text identical")),
         C04_DETERMINES_PART,
         C04_TYPEARGS_PART,
-        C04_CPP_SCHEMAS_PART,  # every header the generated C++ writer emits carries the schema of the version it is written for
+        C04_CPP_SCHEMAS_PART,
+        C04_CPP_LABELS_PART,  # every header the generated C++ writer emits carries the schema of the version it is written for
     ],
     "C11": [
         (G, "gosym_part", dict(name="c11_all_or_nothing", entry="internal/cmd.VerifC11", args_quick=(1,), args_thorough=(1,), key_fn=c11_key,
